@@ -1368,3 +1368,127 @@ for _it in UNITS["bucket"]["items"]:
     else:
         _it["serves"] = ["C02", "C16"] + (["C05"] if _nm in _C05_DEPS else [])
 UNITS["bucket"]["search_tests"] = {"C02": "verif_search_c02", "C05": "verif_search_reqh_c05", "C16": "verif_search_c16_route"}
+
+# ---------------------------------------------------------------------------------------------
+# unit keystore (C18): password gating of the encrypted key store, await-erased
+# ---------------------------------------------------------------------------------------------
+_KS_LOCK_ERR = r"\.map_err\(\|_\| \{\s*VerifError \{\}\s*\}\)\?"
+_KS_STATS_BLOCK = r"// Update statistics\s*\{(?:[^{}]|\{[^{}]*\})*\}\n"
+_O = "optional"
+# rewrites that apply wherever the construct occurs in one of the four functions
+_KS_RW = [
+    (r"self\.key_cache\.read\(\)" + _KS_LOCK_ERR, "&*key_cache_g", "lock acquisition `self.key_cache.read()` (+ poisoned-lock error) replaced by the parameter that stands for the guarded cache", _O),
+    (r"self\.key_cache\.write\(\)" + _KS_LOCK_ERR, "&mut *key_cache_g", "lock acquisition `self.key_cache.write()` (+ poisoned-lock error) replaced by the parameter that stands for the guarded cache", _O),
+    (r"if let Ok\(mut cache\) = self\.key_cache\.write\(\) \{", "{ let cache = &mut *key_cache_g;", "lock acquisition `if let Ok(mut cache) = self.key_cache.write()` replaced by the parameter that stands for the guarded cache (ASSUMED: the lock is not poisoned; with a poisoned lock every cache access of retrieve fails)", _O),
+    (r"\bcache\.insert\(", "verif_insert(cache, ", "callee renamed to the HashMap::insert shim", _O),
+    (r"\bcache\.clear\(\)", "verif_clear(cache)", "callee renamed to the HashMap::clear shim", _O),
+    (r"\bcache\.get\(&(\w+)\)", r"verif_get(cache, &\1)", "callee renamed to the HashMap::get shim", _O),
+    (r"\bcache\.get\((\w+)\)", r"verif_get_str(cache, \1)", "callee renamed to the HashMap::get shim (key given as &str)", _O),
+    (r"(self\s*\.(?:load_and_decrypt|encrypt_and_store|get_current_salt)\()", r"\1file_g, ", "the store file the async helper reads / replaces became an explicit first argument", _O),
+    (r"\.await\b", "", "await erased (every awaited expression in these functions is a call of load_and_decrypt / encrypt_and_store / get_current_salt: any other would leave an unknown callee and the unit undecided)", _O),
+    (r"RngCore::fill_bytes\(&mut thread_rng\(\), &mut (\w+)\);", r"verif_fill_random(&mut \1);", "random fill renamed to an opaque shim fn (some bytes)", _O),
+    (r"HashMap::new\(\)", "verif_new_map()", "HashMap::new renamed to its shim (empty map)", _O),
+    (r"key_data\s*\.master_seeds\s*\.get\(seed_id\)\s*\.ok_or_else\(\|\| \{\s*VerifError \{\}\s*\}\)", "verif_ok_or(verif_get_str(&key_data.master_seeds, seed_id))", "`map.get(&str).ok_or_else(|| err)` renamed to shim fns (HashMap::get through Borrow<str>, Option::ok_or_else)", _O),
+    (r"from_entropy\(seed_bytes\)", "from_entropy(seed_bytes.as_slice())", "deref coercion &Vec<u8> -> &[u8] made explicit", _O),
+    (r"from_slice\(seed_bytes\)", "from_slice(seed_bytes.as_slice())", "deref coercion &Vec<u8> -> &[u8] made explicit", _O),
+    (r"key_data\s*\.master_seeds\s*\.insert\(seed_id\.to_string\(\), master_seed\.seed_material\(\)\.to_vec\(\)\)", "verif_insert(&mut key_data.master_seeds, verif_str_to_string(seed_id), verif_to_vec(master_seed.seed_material()))", "HashMap::insert / str::to_string / slice::to_vec renamed to shim fns", _O),
+    (r"seed_id\.to_string\(\)", "verif_str_to_string(seed_id)", "str::to_string renamed to its shim", _O),
+]
+_KS_DROPS = [(r"let start_time = Instant::now\(\);\n", "timing of the call (statistics)"),
+             (_KS_STATS_BLOCK, "statistics bookkeeping block (counters / timing under the stats mutex): no contract mentions it")]
+UNITS["keystore"] = {
+    "property": "C18",
+    "src": "src/encrypted_key_storage.rs",
+    "spec": "verus/keystore.spec.rs",
+    "shims": {
+        "EncryptedKeyStorageManager": (None, {"cache_binding_key": "[u8; 32]"}),
+        "KeyStorageData": (None, {"master_seeds": "HashMap<String, Vec<u8>>", "derived_keys": "HashMap<String, Vec<u8>>", "key_metadata": "HashMap<String, KeyMetadata>", "created_at": "u64", "last_accessed": "u64"}),
+        "PasswordValidation": (None, {"valid": "bool"}),
+    },
+    "consts_verbatim": ["SALT_SIZE", "AES_NONCE_SIZE"],
+    "items": [
+        {"impl": "EncryptedKeyStorageManager", "fn": "retrieve_master_seed", "erase_errors": ["P2PError::"],
+         "block": {"name": "verif_retrieve_sequential", "of": "EncryptedKeyStorageManager::retrieve_master_seed",
+                   "sig": "fn verif_retrieve_sequential(&self, key_cache_g: &mut HashMap<String, SecureMemory>, file_g: &StoreFile, seed_id: &str, password: &SecureString) -> Result<MasterSeed>",
+                   "why": "await erasure: the only .await is the call of the manager's own async helper load_and_decrypt (assumed contract); the cache behind the std RwLock and the store file became parameters"},
+         "drop_all": [(r"let start_time = Instant::now\(\);\n", "timing of the call (statistics)"),
+                      (r"let mut stats = self\.stats\.lock\(\)\.map_err\(\|_\| \{\s*P2PError::Storage\(StorageError::LockPoisoned\(\s*\"mutex lock failed\"\.to_string\(\)\.into\(\),\s*\)\)\s*\}\)\?;\s*stats\.cache_hits \+= 1;\n", "cache-hit counter under the stats mutex"),
+                      (_KS_STATS_BLOCK, "statistics bookkeeping block: no contract mentions it")],
+         "rewrite": _KS_RW,
+         "spec": """
+    requires
+        cache_bound(old(key_cache_g)@, self.cache_binding_key, *file_g),
+    ensures
+        r.is_ok() ==> password@ == pw_of(*file_g), // @C18/retrieve/a_seed_is_returned_only_to_a_caller_presenting_the_current_password
+        cache_bound(final(key_cache_g)@, self.cache_binding_key, *file_g), // @C18/cache/every_cached_seed_stays_bound_to_the_password_that_opens_the_store
+        cache_vals(old(key_cache_g)@, self.cache_binding_key, *file_g) ==> (r matches Ok(s) ==> seeds_of(*file_g).contains_key(str_key(seed_id)) && s@ == seeds_of(*file_g)[str_key(seed_id)]), // @C18/retrieve/the_seed_returned_is_exactly_the_one_the_store_holds_under_that_id
+        cache_vals(old(key_cache_g)@, self.cache_binding_key, *file_g) ==> cache_vals(final(key_cache_g)@, self.cache_binding_key, *file_g),
+"""},
+        {"impl": "EncryptedKeyStorageManager", "fn": "store_master_seed", "erase_errors": ["P2PError::"],
+         "block": {"name": "verif_store_sequential", "of": "EncryptedKeyStorageManager::store_master_seed",
+                   "sig": "fn verif_store_sequential(&self, key_cache_g: &mut HashMap<String, SecureMemory>, file_g: &mut StoreFile, seed_id: &str, master_seed: &MasterSeed, password: &SecureString) -> Result<()>",
+                   "why": "await erasure: the awaits are calls of the manager's own async helpers load_and_decrypt / get_current_salt / encrypt_and_store (assumed contracts); the cache and the store file became parameters"},
+         "drop_all": _KS_DROPS + [(r"// Update metadata\s*key_data\.key_metadata\.insert\(\s*seed_id\.to_string\(\),\s*KeyMetadata \{[^{}]*\},\s*\);\n", "key metadata insertion (a field no contract mentions)")],
+         "rewrite": _KS_RW,
+         "spec": """
+    requires
+        cache_bound(old(key_cache_g)@, self.cache_binding_key, *old(file_g)),
+    ensures
+        r.is_ok() ==> password@ == pw_of(*old(file_g)), // @C18/store/a_seed_is_stored_only_for_a_caller_presenting_the_current_password
+        pw_of(*final(file_g)) == pw_of(*old(file_g)), // @C18/store/storing_a_seed_never_changes_the_password
+        r.is_ok() ==> seeds_of(*final(file_g)) == seeds_of(*old(file_g)).insert(str_key(seed_id), master_seed@), // @C18/store/the_store_afterwards_holds_exactly_the_given_seed_under_that_id_and_every_other_seed_unchanged
+        cache_bound(final(key_cache_g)@, self.cache_binding_key, *final(file_g)), // @C18/cache/every_cached_seed_stays_bound_to_the_password_that_opens_the_store
+        (cache_vals(old(key_cache_g)@, self.cache_binding_key, *old(file_g)) && (r.is_ok() || *final(file_g) == *old(file_g)))
+            ==> cache_vals(final(key_cache_g)@, self.cache_binding_key, *final(file_g)), // @C18/cache/cached_seeds_equal_the_stored_ones_after_a_store
+"""},
+        {"impl": "EncryptedKeyStorageManager", "fn": "change_password", "erase_errors": ["P2PError::"],
+         "block": {"name": "verif_change_password_sequential", "of": "EncryptedKeyStorageManager::change_password",
+                   "sig": "fn verif_change_password_sequential(&self, key_cache_g: &mut HashMap<String, SecureMemory>, file_g: &mut StoreFile, old_password: &SecureString, new_password: &SecureString) -> Result<()>",
+                   "why": "await erasure: the awaits are calls of load_and_decrypt / encrypt_and_store (assumed contracts); the cache and the store file became parameters"},
+         "drop_all": [(_KS_STATS_BLOCK, "statistics bookkeeping block: no contract mentions it")],
+         "rewrite": _KS_RW,
+         "spec": """
+    requires
+        cache_bound(old(key_cache_g)@, self.cache_binding_key, *old(file_g)),
+    ensures
+        r.is_ok() ==> old_password@ == pw_of(*old(file_g)), // @C18/change/the_password_changes_only_for_a_caller_presenting_the_current_one
+        r.is_ok() ==> pw_of(*final(file_g)) == new_password@ && seeds_of(*final(file_g)) == seeds_of(*old(file_g)), // @C18/change/afterwards_the_new_password_opens_the_same_seeds
+        r.is_err() ==> *final(file_g) == *old(file_g), // @C18/change/a_refused_or_failed_change_leaves_the_store_as_it_was
+        cache_bound(final(key_cache_g)@, self.cache_binding_key, *final(file_g)), // @C18/cache/nothing_cached_under_the_previous_password_survives_a_password_change
+        (r.is_ok() || cache_vals(old(key_cache_g)@, self.cache_binding_key, *old(file_g))) ==> cache_vals(final(key_cache_g)@, self.cache_binding_key, *final(file_g)),
+"""},
+        {"impl": "EncryptedKeyStorageManager", "fn": "initialize", "erase_errors": ["P2PError::"],
+         "block": {"name": "verif_initialize_sequential", "of": "EncryptedKeyStorageManager::initialize",
+                   "sig": "fn verif_initialize_sequential(&self, key_cache_g: &mut HashMap<String, SecureMemory>, file_g: &mut StoreFile, password: &SecureString) -> Result<()>",
+                   "why": "await erasure: the only await is the call of encrypt_and_store (assumed contract); the cache and the store file became parameters"},
+         "drop_all": [(_KS_STATS_BLOCK, "statistics bookkeeping block: no contract mentions it")],
+         "rewrite": _KS_RW,
+         "spec": """
+    ensures
+        r.is_ok() ==> pw_of(*final(file_g)) == password@ && seeds_of(*final(file_g)) == Map::<String, Seq<u8>>::empty(), // @C18/init/a_new_store_opens_with_the_given_password_and_holds_no_seed
+        r.is_err() ==> *final(file_g) == *old(file_g),
+        cache_bound(old(key_cache_g)@, self.cache_binding_key, *old(file_g)) ==> cache_bound(final(key_cache_g)@, self.cache_binding_key, *final(file_g)), // @C18/cache/nothing_cached_from_a_previous_store_survives_its_re_initialisation
+        (r.is_ok() || cache_vals(old(key_cache_g)@, self.cache_binding_key, *old(file_g))) ==> cache_vals(final(key_cache_g)@, self.cache_binding_key, *final(file_g)),
+"""},
+        {"impl": "EncryptedKeyStorageManager", "fn": "clear_cache", "erase_errors": ["P2PError::"],
+         "block": {"name": "verif_clear_cache_sequential", "of": "EncryptedKeyStorageManager::clear_cache",
+                   "sig": "fn verif_clear_cache_sequential(&self, key_cache_g: &mut HashMap<String, SecureMemory>, file_g: &StoreFile) -> Result<()>",
+                   "why": "the cache behind the std RwLock became a parameter (file_g is a ghost of the store file for the contract only)"},
+         "rewrite": _KS_RW,
+         "spec": """
+    ensures
+        cache_bound(final(key_cache_g)@, self.cache_binding_key, *file_g),
+        cache_vals(final(key_cache_g)@, self.cache_binding_key, *file_g),
+"""},
+    ],
+    "pinned_fns": [("src/encrypted_key_storage.rs", "EncryptedKeyStorageManager", "cache_key", "ebf0b2aa28337e7c", "keyed BLAKE3 of the password (hex) + ':' + seed id: injective in (password, id) for a fixed key -- ASSUMED")],
+    "paired_kani": [],
+    "search_test": "verif_search_c18",
+    "trusted": [
+        "await erasure (initialize, store_master_seed, retrieve_master_seed, change_password): every .await is a call of the manager's own async helper; helpers are functions with ASSUMED contracts over an abstract store file; the cache behind the std RwLock is a parameter; sequential use (no other task touches file or cache during a call), locks not poisoned",
+        "ASSUMED ideal cryptography / file system: the store file opens under exactly one password (authenticated decryption under an Argon2id-derived key); encrypt_and_store replaces the file as a whole or leaves it (tmp + rename); cache_key injective in (password, id) (keyed BLAKE3; text pinned)",
+        "ASSUMED shim contracts: HashMap<String, V> get / insert / clear / new as a finite map, get through Borrow<str>, Option::ok_or_else, slice::to_vec, str::to_string; SecureMemory / MasterSeed / SecureString opaque byte containers (from_slice / from_entropy copy the bytes or fail)",
+        "dropped: statistics bookkeeping (stats mutex blocks, start_time), key metadata insertion in store_master_seed; error payloads",
+        "cache VALUE coherence after a failed store is proved only when the file was left unchanged: a failure of SecureMemory::from_slice (memory locking) AFTER the file was rewritten would leave the previous seed cached (not reproducible here; recorded as an assumption, not a finding)",
+    ],
+}
